@@ -1,6 +1,7 @@
 pub mod codec;
 pub mod core;
 pub mod drop;
+pub mod lifecycle_check;
 pub mod recovery;
 pub mod synctest;
 
@@ -14,6 +15,7 @@ pub fn judge_for(prop: &str) -> JudgeFn {
     match prop {
         "C05" => recovery::judge,
         "C07" => drop::judge,
+        "C12" => lifecycle_check::judge,
         _ => core::no_judge,
     }
 }
